@@ -107,6 +107,14 @@ func newC14Scene(r *rng, k int) *c14Scene {
 	if h, err := s.repo.ResolveRef("refs/bugs/" + string(s.others[0])); err == nil {
 		s.repo.UpdateRef("refs/heads/host-branch", h)
 		s.repo.UpdateRef("refs/tags/host-tag", h)
+		// host refs whose names merely start like git-bug's namespaces
+		s.repo.UpdateRef("refs/heads/bugs/fix-1", h)
+		s.repo.UpdateRef("refs/bugsnag/x", h)
+		for _, rm := range s.remotes {
+			s.repo.UpdateRef("refs/remotes/"+rm+"/bugs-backlog", h)
+			s.repo.UpdateRef("refs/remotes/"+rm+"/identitiesold", h)
+			s.repo.UpdateRef("refs/remotes/"+rm+"/main", h)
+		}
 	}
 	return s
 }
@@ -233,8 +241,87 @@ func runC14(c *runCtx) {
 		s.repo.Close()
 		cleanupScratch()
 	}
+	c14RemoteOnly(c)
 	if gb != "" {
 		c14Wipe(c, gb)
+	}
+}
+
+// c14RemoteOnly: removal of an entity this repository holds only as remote-tracking refs
+// (fetched and never merged; or removed, fetched again and removed again), then a merge.
+func c14RemoteOnly(c *runCtx) {
+	for rep := 0; rep < c.pick(2, 12); rep++ {
+		for _, mode := range []string{"fetched-never-merged", "remove-fetch-remove"} {
+			r := c.rng.fork()
+			k := r.rangeInt(1, 3)
+			s := newC14Scene(r, k)
+			var id entity.Id
+			switch mode {
+			case "fetched-never-merged":
+				// another clone pushes a bug to every remote; we fetch it but never merge
+				other, _ := newGoGit("c14other", false)
+				rems, _ := s.repo.GetRemotes()
+				for name, url := range rems {
+					other.AddRemote(name, url)
+				}
+				identity.Pull(other, s.remotes[0])
+				oa := mkAuthors(other, 1)
+				g := newOpGen(r.fork(), oa)
+				b := bug.NewBug()
+				b.Append(g.create())
+				b.Commit(other)
+				id = b.Id()
+				for _, rm := range s.remotes {
+					identity.Push(other, rm)
+					bug.Push(other, rm)
+				}
+				other.Close()
+			case "remove-fetch-remove":
+				id = s.others[0] // pushed to every remote
+				if err := bug.Remove(s.repo, id); err != nil {
+					c.violation(-1, "C14/remove-failed", "removal failed: "+err.Error(), nil)
+				}
+			}
+			for _, rm := range s.remotes {
+				bug.Fetch(s.repo, rm)
+				identity.Fetch(s.repo, rm)
+			}
+			before := allRefs(s.repo)
+			tracked := 0
+			for _, ref := range before {
+				if strings.HasSuffix(ref, "/bugs/"+string(id)) && strings.HasPrefix(ref, "refs/remotes/") {
+					tracked++
+				}
+			}
+			c.context(fmt.Sprintf("remove %s held only as %d tracking refs (%s)", id.Human(), tracked, mode))
+			rmErr := bug.Remove(s.repo, id)
+			after := allRefs(s.repo)
+			cid := c.emit(map[string]any{"cmd": "remove", "refs": before, "ns": "bugs", "entity": string(id), "remotes": s.remotes, "api": "entity", "mode": mode}, after)
+			c.count("remote-only=" + mode)
+			c.nontrivial(mode + mustJSON(before))
+			if tracked == 0 {
+				c.violation(cid, "C14/harness", "scenario did not produce tracking refs", nil)
+			}
+			if rmErr != nil {
+				c.violation(cid, "C14/remove-failed", fmt.Sprintf("removing an entity held only as tracking refs failed: %v", rmErr), nil)
+			}
+			for _, ref := range after {
+				if strings.HasSuffix(ref, "/bugs/"+string(id)) {
+					c.violation(cid, "C14/refs", fmt.Sprintf("after removing %s (%s) the ref %s is still there", id.Human(), mode, ref), nil)
+					break
+				}
+			}
+			// stays gone across a merge without a new fetch
+			for _, rm := range s.remotes {
+				for range bug.MergeAll(s.repo, resolversFor(s.repo), rm, s.iden) {
+				}
+			}
+			if ok, _ := s.repo.RefExist("refs/bugs/" + string(id)); ok {
+				c.violation(cid, "C14/back-after-merge", fmt.Sprintf("the removed bug (%s) is back after a merge without a new fetch", mode), nil)
+			}
+			s.repo.Close()
+			cleanupScratch()
+		}
 	}
 }
 
@@ -315,8 +402,21 @@ func c14Wipe(c *runCtx, gb string) {
 			}
 			return false
 		}
-		if !has(after, "refs/heads/host-branch") || !has(after, "refs/tags/host-tag") {
-			c.violation(cid, "C14/wipe-touched-host", "wipe removed a ref outside git-bug's namespaces", nil)
+		isGB := func(ref string) bool {
+			if strings.HasPrefix(ref, "refs/bugs/") || strings.HasPrefix(ref, "refs/identities/") {
+				return true
+			}
+			for _, rm := range s.remotes {
+				if strings.HasPrefix(ref, "refs/remotes/"+rm+"/bugs/") || strings.HasPrefix(ref, "refs/remotes/"+rm+"/identities/") {
+					return true
+				}
+			}
+			return false
+		}
+		for _, ref := range before {
+			if !isGB(ref) && !has(after, ref) {
+				c.violation(cid, "C14/wipe-touched-host", "wipe removed a ref outside git-bug's namespaces: "+ref, nil)
+			}
 		}
 		cleanupScratch()
 	}
